@@ -974,7 +974,7 @@ fn cred_bwd(ctx: &Ctx, acc: &Acc, groups: u8, ch: &mut Chooser) {
   let w: &World = &WORLD;
   let mut j = Judge::default();
   let iss_c = bpt(ch, groups, B_ISS, "iss", 4, 3);
-  let vciss_c = bpt(ch, groups, B_ISS, "vc.issuer", 7, 4);
+  let vciss_c = bpt(ch, groups, B_ISS, "vc.issuer", 8, 4);
   let nbf_c = bpt(ch, groups, B_NBF, "nbf", DATE_ALTS, 8);
   let iat_c = bpt(ch, groups, B_NBF, "iat", IAT_ALTS.len(), 5);
   let vcnbf_c = bpt(ch, groups, B_NBF, "vc.issuanceDate", 4, 4);
@@ -991,7 +991,9 @@ fn cred_bwd(ctx: &Ctx, acc: &Acc, groups: u8, ch: &mut Chooser) {
   let issuer_form = |id: &str, form: usize| match form {
     0 => json!(id),
     1 => json!({"id": id, "name": "Example University"}),
-    _ => json!({"id": id}),
+    2 => json!({"id": id}),
+    // an object that CONTRADICTS form 1 in a member both carry
+    _ => json!({"id": id, "name": "Another University"}),
   };
   // `iss`: URL, object, absent, minimal object
   let iss_form: Option<usize> = [Some(0), Some(1), None, Some(2)][iss_c];
@@ -1009,7 +1011,9 @@ fn cred_bwd(ctx: &Ctx, acc: &Acc, groups: u8, ch: &mut Chooser) {
     4 => (Some(issuer_form(ISSUER, (f0 + 2) % 3)), ISSUER),
     // other id, the two other forms
     5 => (Some(issuer_form(MALLORY, (f0 + 1) % 3)), MALLORY),
-    _ => (Some(issuer_form(MALLORY, (f0 + 2) % 3)), MALLORY),
+    6 => (Some(issuer_form(MALLORY, (f0 + 2) % 3)), MALLORY),
+    // same id, an object whose `name` differs from the one `iss` carries when `iss` is the object with a name
+    _ => (Some(issuer_form(ISSUER, 3)), ISSUER),
   };
   // expected issuer: Some(value) when determinable
   let mut want_issuer: Option<Value> = iss.clone();
@@ -1019,7 +1023,10 @@ fn cred_bwd(ctx: &Ctx, acc: &Acc, groups: u8, ch: &mut Chooser) {
       want_issuer = vc_issuer.clone();
     }
     (Some(a), Some(b)) if a != b => {
-      if vc_issuer_id == ISSUER {
+      if vc_issuer_id == ISSUER && vciss_c == 7 && iss_form == Some(1) {
+        // both are objects, same id, and they give different values for the same member: the repeated value disagrees
+        j.must_reject.push("vc.issuer-contradicts-iss-in-a-member");
+      } else if vc_issuer_id == ISSUER {
         j.open.insert("issuer-same-id-other-form");
         want_issuer = None;
       } else {
